@@ -59,10 +59,20 @@ Proof. vm_compute. reflexivity. Qed.
 Theorem repo_notify_after_state : notify_after_state nfuncs nentries notifiers = true.
 Proof. vm_compute. reflexivity. Qed.
 
+(* every Listener method that takes the Listener mutex gives it back by a DEFERRED unlock, and every
+   registered handler is such a method: a handler that panics (controller-runtime recovers the
+   reconcile) does not leave the mutex held (C20_deferred_unlock_survives_panics /
+   C20_plain_unlock_blocks_after_panic) *)
+Theorem repo_wrappers_unlock_deferred : wrappers_unlock_deferred registered wrapper_unlocks = true.
+Proof. vm_compute. reflexivity. Qed.
+
 (* the status fetchers, which run outside the Listener mutex, touch only guarded fields of
-   their receiver, and they are the functions the programs hand to the status reconcilers *)
+   their receiver, a function literal used as fetcher touches nothing of the program's controller
+   struct (state owned by the handlers under the Listener mutex), and they are the functions the
+   programs hand to the status reconcilers *)
 Theorem repo_fetchers_confined :
   confined guards fetchers = true /\
+  fetcher_closures_confined fetcher_closures = true /\
   forallb (fun w => existsb (fun x => String.eqb (fst (fst x)) (snd (fst x) ++ "." ++ snd w)) fetchers) fetchers_wired = true /\
   List.length fetchers = 3.
 Proof. vm_compute. repeat split. Qed.
@@ -82,5 +92,6 @@ Print Assumptions repo_lock_order_acyclic.
 Print Assumptions repo_no_recursive_lock.
 Print Assumptions repo_declared_guards_inferred.
 Print Assumptions repo_fetchers_confined.
+Print Assumptions repo_wrappers_unlock_deferred.
 Print Assumptions repo_no_blocking_send_under_lock.
 Print Assumptions repo_notify_after_state.
